@@ -469,7 +469,64 @@ fn all_bits_cases(seed: u64, n_per_suite: usize) -> Vec<Case> {
     out
 }
 
+/// Many verifiers at once, transcripts well above 1 KiB (long ph, many disclosed messages): honest
+/// statements must verify and edited ones must not, whatever the other threads are doing.
+fn concurrent_verifiers<CS: BbsCiphersuite>(ctx: &Ctx, rep: &Report, suite: SuiteId) {
+    let ck = "concurrent-verifiers";
+    let threads = ctx.workers.max(4);
+    // one statement per thread
+    struct St {
+        pk: BBSplusPublicKey,
+        proof: Vec<u8>,
+        dm: Vec<Vec<u8>>,
+        idx: Vec<usize>,
+        header: Vec<u8>,
+        ph: Vec<u8>,
+    }
+    let sts: Vec<St> = (0..threads)
+        .map(|t| {
+            let kp = KeyPair::<BBSplus<CS>>::generate(&[t as u8 + 1; 32], None, None).unwrap();
+            let l = 24 + t % 5;
+            let msgs: Vec<Vec<u8>> = (0..l).map(|j| format!("m-{}-{}", t, j).into_bytes()).collect();
+            let idx: Vec<usize> = (0..l).filter(|j| j % 7 != 3).collect();
+            let header = vec![t as u8; 20];
+            let mut ph = vec![0u8; 900 + 13 * t];
+            fill_random(t as u64 + 5, &mut ph);
+            let sig = Signature::<BBSplus<CS>>::sign(Some(&msgs), kp.private_key(), kp.public_key(), Some(&header)).unwrap();
+            let proof = PoKSignature::<BBSplus<CS>>::proof_gen(kp.public_key(), &sig.to_bytes(), Some(&header), Some(&ph), Some(&msgs), Some(&idx)).unwrap().to_bytes();
+            St { pk: kp.public_key().clone(), proof, dm: idx.iter().map(|&i| msgs[i].clone()).collect(), idx, header, ph }
+        })
+        .collect();
+    let r = contend(ck, threads, ctx.tier.pick(60, 400), |t, round| {
+        let st = &sts[t];
+        let p = PoKSignature::<BBSplus<CS>>::from_bytes(&st.proof).unwrap();
+        rep.eval(ck, 2);
+        if p.proof_verify(&st.pk, Some(&st.dm), Some(&st.idx), Some(&st.header), Some(&st.ph)).is_err() {
+            return rep.fail(ck, "honest-proof-rejected-under-contention", format!("thread {} round {}: an honest proof is rejected while other threads verify", t, round), json!({"suite": suite.name(), "thread": t}));
+        }
+        // an edited statement: ph bit, disclosed message or header, in turn
+        let (mut ph2, mut dm2, mut h2) = (st.ph.clone(), st.dm.clone(), st.header.clone());
+        match round % 3 {
+            0 => ph2[round % st.ph.len()] ^= 1,
+            1 => dm2[round % st.dm.len()].push(1),
+            _ => h2[0] ^= 0x80,
+        }
+        if p.proof_verify(&st.pk, Some(&dm2), Some(&st.idx), Some(&h2), Some(&ph2)).is_ok() {
+            return rep.fail(ck, "accepted:edited-statement-under-contention", format!("thread {} round {}: an edited statement (kind {}) verifies while other threads verify", t, round, round % 3), json!({"suite": suite.name(), "thread": t, "edit": round % 3}));
+        }
+        if round == 0 {
+            rep.nontrivial(ck, &json!({"suite": suite.name(), "t": t}));
+        }
+        Ok(())
+    });
+    if let Err(f) = r {
+        rep.add_violation(f);
+    }
+}
+
 pub fn run(ctx: &Ctx, rep: &Report) -> Meta {
+    concurrent_verifiers::<Bls12381Sha256>(ctx, rep, SuiteId::Sha256);
+    concurrent_verifiers::<Bls12381Shake256>(ctx, rep, SuiteId::Shake256);
     let ab = all_bits_cases(ctx.seed, ctx.tier.pick(6, 48));
     par_items(ctx, rep, "all-bit-flips", &ab, |c| check(rep, "all-bit-flips", c));
     // larger statements: every L in 9..=40 (quick) / 9..=100 (thorough) and 63..65, few disclosed positions
